@@ -387,6 +387,11 @@ func (c14Checker) Run(tp *Tapes, opt RunOpt) *Outcome {
 					rs = append(rs, on(ep, nil))
 				}
 				out.probe("same_template_after_failure")
+				for _, r := range rs {
+					if r.Alias != "" {
+						viol("result_aliased", "ExecuteBytes", "a byte slice returned by ExecuteBytes was modified by a later execution: "+r.Alias, nil, obs(rs))
+					}
+				}
 				if !fr.Failed() {
 					continue
 				}
